@@ -46,7 +46,7 @@ REAL_VS_STUB = {
              'CPython containers and allocator (malloc under ASan)'],
     'stub_or_simulator_owned': ['all user callbacks', 'which container is mutated how at which callback', 'GC timing'],
 }
-EXPECTED_PROBES = ('mismatch-sweep', 'mut:rotate', 'index-sweep', 'leafcount-sweep', 'mut:delete_front', 'mut:delete_back', 'mut:clear', 'mut:append', 'mut:replace', 're:iter_next',
+EXPECTED_PROBES = ('liar-sweep', 'mismatch-sweep', 'mut:rotate', 'index-sweep', 'leafcount-sweep', 'mut:delete_front', 'mut:delete_back', 'mut:clear', 'mut:append', 'mut:replace', 're:iter_next',
                    're:flatten', 're:unflatten', 're:register', 're:gc', 're:dictmode', 'outcome:exception', 'outcome:consistent')
 
 TRAVERSALS = ('flatten', 'flatten_with_path', 'iter', 'flatten_up_to', 'map', 'map_with_path', 'broadcast_prefix',
@@ -815,6 +815,32 @@ def run_confusion(job, io):
                 except (ValueError, TypeError, RuntimeError, KeyError, IndexError):
                     oc = 'exc'
                 keys.add('cf|mismatch|%s|%s|%s|%s' % (opn, container_kind(victim) if not (isinstance(victim, tuple) and hasattr(victim, '_fields')) else 'namedtuple', how, oc))
+        # containers whose __len__ lies, as the children a custom flatten function returns and as leaves for unflatten
+        fca = [f for (c, n, f) in reg.live if c is U.CA][0]
+        liar_tree = [U.CA([U.Leaf(1), U.Leaf(2), U.Leaf(3)], 0), (U.CA([], 1),)]
+        for lm in ('liar_long', 'liar_short'):
+            fca.malform = lm
+            probes['liar-sweep'] += 1
+            for opn, f in (('flatten', lambda: check_flat(optree.tree_flatten(liar_tree, namespace='ns'))), ('with_path', lambda: optree.tree_flatten_with_path(liar_tree, namespace='ns')),
+                           ('iter', lambda: list(optree.tree_iter(liar_tree, namespace='ns'))), ('map', lambda: optree.tree_map(lambda a, b: a, liar_tree, liar_tree, namespace='ns')),
+                           ('one_level', lambda: optree.tree_flatten_one_level(liar_tree[0], namespace='ns')), ('broadcast', lambda: optree.tree_broadcast_common(liar_tree, liar_tree, namespace='ns')),
+                           ('from_collection', lambda: optree.treespec_from_collection(U.CA([optree.treespec_leaf()] * 2, 0), namespace='ns'))):
+                io.progress({'site': 'confusion:liar:%s:%s' % (lm, opn), 'tape': tape.values})
+                try:
+                    f()
+                    oc = 'ok'
+                except (ValueError, TypeError, RuntimeError, IndexError, Inconsistent):
+                    oc = 'exc'
+                keys.add('cf|liar|%s|%s|%s' % (lm, opn, oc))
+            fca.malform = None
+        sp3 = optree.tree_structure([1, (2, 3), {'a': 4}])
+        for liar in (U.LiarList([1, 2, 3, 4]), U.LiarShort([1, 2, 3, 4]), U.LiarList([1]), U.LiarShort([1, 2, 3, 4, 5])):
+            for how in ('unflatten', 'walk', 'traverse'):
+                io.progress({'site': 'confusion:liar-leaves:%s' % how, 'tape': tape.values})
+                try:
+                    getattr(sp3, how)(liar)
+                except (ValueError, TypeError, RuntimeError, IndexError):
+                    pass
     finally:
         reg.unregister_all()
     del violations[6:]
